@@ -451,6 +451,16 @@ func cmdCheck(args []string) {
 		file := writeReplayFile(replayDir, id, r, nil, "the check generated no obligation at all: a run that proves nothing is not a pass")
 		viol = append(viol, violation{r.O.Name, file, true})
 	}
+	// bounded stand-ins (files /verif/bounded/<id>_*_test.go): grids of the real code for clauses
+	// that no contract can decide; reported as bounded, never as proved
+	boundedOut := runBounded(id)
+	for _, bo := range boundedOut {
+		if bo.Violation != "" {
+			r := &OblResult{O: &Obligation{Name: "bounded/" + bo.Name, Kind: "bounded", Text: bo.Bound}, Status: "failed", Output: bo.Violation}
+			file := writeReplayFile(replayDir, id, r, nil, "bounded check on the real code ("+bo.File+"): "+bo.Violation)
+			viol = append(viol, violation{r.O.Name, file, bo.NoInput})
+		}
+	}
 	// expected count
 	exp := loadExpected()
 	if n, ok := exp[id]; ok && nObl+nKnown < n {
@@ -496,6 +506,7 @@ func cmdCheck(args []string) {
 		"per_obligation":           oblOuts,
 		"samples":                  samples,
 		"not_covered":              spec.NotCovered,
+		"bounded_checks":           boundedEvidence(boundedOut),
 		"assumed_contracts":        trustedContracts,
 		"contract_files":           relFiles(l.cs.Files),
 		"explanation":              spec.Explanation,
@@ -739,6 +750,88 @@ func selfTest(id string) map[string]interface{} {
 	out["stale"] = stale
 	for _, m := range missed {
 		fmt.Printf("SELFTEST-MISSED: property=%s seeded change %s is not detected by this check (see not_covered)\n", id, m)
+	}
+	return out
+}
+
+type boundedResult struct {
+	Name, Bound, File string
+	Points            string
+	Violation         string
+	NoInput           bool
+}
+
+// runBounded runs the bounded companion tests of a property on the real code (overlay test,
+// nothing is written to the repository).
+func runBounded(id string) []boundedResult {
+	files, _ := filepath.Glob(filepath.Join(verifRoot, "bounded", id+"_*_test.go"))
+	var out []boundedResult
+	for _, f := range files {
+		b, err := os.ReadFile(f)
+		if err != nil {
+			continue
+		}
+		src := string(b)
+		pkg := ""
+		bounds := map[string]string{}
+		lines := strings.Split(src, "\n")
+		for i, l := range lines {
+			if j := strings.Index(l, "owvc-bounded:"); j >= 0 {
+				for _, w := range strings.Fields(l[j:]) {
+					if strings.HasPrefix(w, "pkg=") {
+						pkg = strings.TrimPrefix(w, "pkg=")
+					}
+				}
+				for _, l2 := range lines[i+1:] {
+					t := strings.TrimSpace(strings.TrimPrefix(strings.TrimSpace(l2), "//"))
+					if t == "" || !strings.HasPrefix(strings.TrimSpace(l2), "//") {
+						break
+					}
+					if fs := strings.Fields(t); len(fs) > 1 {
+						bounds[fs[0]] = strings.Join(fs[1:], " ")
+					}
+				}
+			}
+		}
+		res := execReplayTest(pkg, src)
+		seen := map[string]bool{}
+		for _, l := range strings.Split(res, "\n") {
+			if !strings.HasPrefix(l, "OWVC-BOUNDED ") {
+				continue
+			}
+			fs := strings.Fields(l)
+			if len(fs) < 3 {
+				continue
+			}
+			r := boundedResult{Name: fs[1], Bound: bounds[fs[1]], File: filepath.Base(f)}
+			seen[fs[1]] = true
+			if fs[2] == "VIOLATION" {
+				r.Violation = strings.TrimSpace(strings.SplitN(l, "VIOLATION", 2)[1])
+			} else {
+				r.Points = strings.TrimPrefix(fs[2], "points=")
+			}
+			out = append(out, r)
+		}
+		for name, bd := range bounds {
+			if !seen[name] {
+				out = append(out, boundedResult{Name: name, Bound: bd, File: filepath.Base(f), NoInput: true,
+					Violation: "the bounded check did not run to a verdict (the code it calls may have been restructured): " + firstLines(res, 3)})
+			}
+		}
+	}
+	sort.Slice(out, func(i, j int) bool { return out[i].Name < out[j].Name })
+	return out
+}
+
+func boundedEvidence(rs []boundedResult) []map[string]string {
+	out := []map[string]string{}
+	for _, r := range rs {
+		st := "held on every grid point"
+		if r.Violation != "" {
+			st = "VIOLATION: " + r.Violation
+		}
+		out = append(out, map[string]string{"name": r.Name, "status": st, "bound": r.Bound, "points": r.Points, "file": "/verif/bounded/" + r.File,
+			"label": "BOUNDED: evaluated on a grid by running the real code; not a proof and not counted under discharged"})
 	}
 	return out
 }
